@@ -100,6 +100,11 @@ pub fn all_txs(r: &Report) -> Vec<RTx> {
             txs.push(RTx { version: 2, lock_time: 0, ins: vec![i], outs: vec![o.clone(), outs[(k * 7 + 3) % outs.len()].clone()] });
         }
     }
+    if r.tier.thorough() {
+        for c in crate::props::c03::sig_cases(true) {
+            txs.push(c.tx);
+        }
+    }
     // values produced by the blinders
     for t in crate::props::c04::blinded_samples(r.seed, r.tier.pick(4, 12)) {
         txs.push(from_tx(&t));
